@@ -145,7 +145,22 @@ class Schemas:
         if el.tag == q("any"):
             return [Slot([], mn, mx, wild=True)]
         if el.tag == q("choice"):
-            alts, wild = self._choice_alts(el)
+            try:
+                alts, wild = self._choice_alts(el)
+            except NotFlat:
+                # choice between single elements and a multi-element group (CT_DLbl/CT_DLbls): the alternatives are
+                # mutually exclusive, so for ORDER purposes list the single elements first, then the group's sequence,
+                # everything optional.  Recorded as an approximation.
+                self.approx = getattr(self, "approx", set())
+                out = []
+                for c in el:
+                    if not isinstance(c.tag, str) or c.tag == q("annotation"):
+                        continue
+                    for s in self._particle(c, outer_min=0):
+                        s.min = 0
+                        out.append(s)
+                self.approx.add(self.tns(el) + ":" + (el.getparent().getparent().get("name") or "?"))
+                return out
             return [Slot(list(alts), mn, mx, wild=wild, types=alts)]
         if el.tag == q("sequence"):
             if mx != 1:
